@@ -141,7 +141,7 @@ TypeClasses(chk, env, T, codec) ==
       on(c, name) == IF c THEN {name} ELSE {}
   IN on(codec = "uper" /\ bytesChk /\ TypeHas(env, T, LAMBDA t : t.k = "CHOICE" /\ t.ext), "UperChoiceExtensionMarker")
      \cup on(codec = "uper" /\ bytesChk /\ TypeHas(env, T, LAMBDA t : t.k = "ENUM" /\ t.ext), "UperEnumExtensionMarker")
-     \cup on((bytesChk \/ chk \in {"SET", "V1V2"}) /\ TypeHas(env, T, IsSignedUpperHalf), "IntSignedUpperHalf")
+     \cup on((bytesChk \/ chk \in {"SET", "V1V2", "CRASH"}) /\ TypeHas(env, T, IsSignedUpperHalf), "IntSignedUpperHalf")
      \cup on(codec = "uper" /\ chk = "CRASH" /\ TypeHas(env, T, IsInt64Offset), "UperInt64OffsetOverflow")
      \cup on(chk = "CC" /\ TypeHas(env, T, LAMBDA t : HasDefaultOf(t, {"BITS"}, env)), "DefaultBitString")
      \cup on(chk = "CC" /\ TypeHas(env, T, LAMBDA t : HasDefaultFixedOcts(t, env)), "DefaultFixedOctetString")
@@ -166,6 +166,8 @@ TypeClasses(chk, env, T, codec) ==
      \cup on(codec = "oer" /\ chk \in {"DEC", "REENC", "V1V2"} /\ TypeHas(env, T, LAMBDA t : t.k = "SEQOF" /\ t.sz.lb = t.sz.ub /\ t.sz.ub > 255),
              "OerFixedSequenceOfAbove255")
      \cup on(codec = "oer" /\ bytesChk /\ TypeHas(env, T, LAMBDA t : t.k = "BITS" /\ t.sz.f = "R" /\ t.sz.ub = 0), "OerBitStringSizeZero")
+     \cup on(codec = "oer" /\ (bytesChk \/ chk = "V1V2") /\ TypeHas(env, T, LAMBDA t : t.k = "BITS" /\ t.sz.f = "R" /\ t.sz.ub > 32 /\ t.sz.ub <= 56),
+             "OerBitString33to56")
 
 \* classes of the value
 ValueClasses(chk, env, T, v, codec) ==
